@@ -185,3 +185,35 @@ fn primitive_grid_never_panics() {
     } }
     println!("STATS {{\"driver\": \"primitive grid\", \"programs\": {n}}}");
 }
+
+/// C09: pseudo-random token soups over the whole vocabulary (deterministic generator; macro bodies cannot call macros,
+/// so every program terminates), in batch mode
+#[test]
+fn token_soup_never_panics() {
+    std::panic::set_hook(Box::new(|info| { println!("PANICLOC {}", info.to_string().replace('\n', " ").chars().take(240).collect::<String>()); }));
+    let thorough = std::env::var("VERIF_TIER").map(|t| t == "thorough").unwrap_or(false);
+    let vocab = ["\\advance", "\\catcode", "\\chardef", "\\count", "\\countdef", "\\dimen", "\\divide", "\\else", "\\endlinechar", "\\expandafter", "\\fi",
+        "\\global", "\\globaldefs", "\\ifcase", "\\iffalse", "\\ifnum", "\\ifodd", "\\iftrue", "\\let", "\\long", "\\mathchardef", "\\mathcode", "\\multiply",
+        "\\noexpand", "\\or", "\\outer", "\\relax", "\\skip", "\\the", "\\toks", "\\toksdef", "\\year", "\\a", "\\b", "\\c", "\\undefinedcs",
+        "{", "}", "{", "}", " ", "=", "-", "1", "2", "9", "0", "255", "-2147483647", "2147483647", "x", "y", "pt", "fil", "plus", "minus", "by", "to", ".", "#", "#1", "~", "`", "'", "\"", "<", ">", "é"];
+    let mut state: u64 = 0x243F6A8885A308D3;
+    let mut next = move || { state ^= state << 13; state ^= state >> 7; state ^= state << 17; state };
+    let n_programs = if thorough { 120_000 } else { 15_000 };
+    let mut failures = 0;
+    for _ in 0..n_programs {
+        let len = 1 + (next() % 10) as usize;
+        let mut src = String::from("\\batchmode \\def\\a#1{(#1)}\\def\\b{z}\\def\\c#1.#2{#2#1}");
+        for _ in 0..len { src.push_str(vocab[(next() % vocab.len() as u64) as usize]); if next() % 3 == 0 { src.push(' '); } }
+        let s2 = src.clone();
+        let r = std::panic::catch_unwind(move || {
+            let mut vm = vm::VM::<StdLibState>::new();
+            vm.push_source("input.tex", s2).unwrap();
+            match crate::script::run_to_string(&mut vm) { Ok(s) => s, Err(err) => format!("{err}") }
+        });
+        if r.is_err() {
+            println!("WITNESS {{\"fn\": \"run\", \"source\": \"{}\", \"observed\": \"panic\", \"expected\": \"success or a structured error that renders to text\"}}", src.escape_default().to_string().replace('"', "'").replace('\\', "/"));
+            failures += 1; if failures >= 10 { return; }
+        }
+    }
+    println!("STATS {{\"driver\": \"token soup\", \"programs\": {n_programs}}}");
+}
